@@ -22,42 +22,25 @@ open Nsq.Gen.CodecFn
 /-! ### Message.WriteTo -/
 
 /-- `(*Message).WriteTo` into a buffer holding `w`: the buffer then holds `w ++ encode m`, the
-returned count is the number of bytes of the encoding, the error is nil. -/
+returned count is the number of bytes of the encoding, the error is nil. (Proof by computation:
+it does not depend on the order / spelling of the statements that fill the 10-byte header.) -/
 theorem writeTo_eq (w : Bytes) (m : Msg) :
-    writeTo bufferWriter w m.ts m.attempts m.id m.body =
+    writeTo m.id m.body m.ts m.attempts bufferWriter w =
       .ret (w ++ encode m, BitVec.ofNat 64 (encode m).length, "") := by
-  have h1 : store (List.replicate 10 (0 : UInt8)) 0 (putBE 8 m.ts) =
-      putBE 8 m.ts ++ List.replicate 2 (0 : UInt8) := by
-    rw [store_zero, putBE_length]; rfl
-  have h2 : store (putBE 8 m.ts ++ List.replicate 2 (0 : UInt8)) 8 (putBE 2 m.attempts) =
-      putBE 8 m.ts ++ putBE 2 m.attempts :=
-    store_tail _ _ _ 8 (putBE_length 8 m.ts).symm (by simp [putBE_length])
-  have hl : (putBE 8 m.ts ++ putBE 2 m.attempts).length = 10 := by simp [putBE_length]
-  simp only [writeTo, bufferWriter, h1, h2, hl, bne_self_eq_false, Bool.false_eq_true, if_false]
-  congr 1
-  refine Prod.ext ?_ (Prod.ext ?_ rfl)
-  · simp [encode, putBE]
-  · simp only [encode, List.length_append, beBytes_length]
-    rw [← BitVec.ofNat_add, ← BitVec.ofNat_add, ← BitVec.ofNat_add]
+  simp [writeTo, bufferWriter, store, putBE, encode, beBytes, List.replicate, BitVec.ofNat_add]
+  try ac_rfl
+
+/-- the 10 header bytes `WriteTo` hands to the first `Write` -/
+def header (m : Msg) : Bytes := beBytes 8 m.ts.toNat ++ beBytes 2 m.attempts.toNat
 
 /-- Error path, ANY writer: when the first `Write` (the 10 header bytes) fails, `WriteTo` returns
 that write's count and error and performs no further write. -/
 theorem writeTo_write_error {W : Type} (wr : Writer W) (w : W) (m : Msg)
-    (h : (wr.write w (beBytes 8 m.ts.toNat ++ beBytes 2 m.attempts.toNat)).2.2 ≠ "") :
-    writeTo wr w m.ts m.attempts m.id m.body =
-      .ret ((wr.write w (beBytes 8 m.ts.toNat ++ beBytes 2 m.attempts.toNat)).1,
-            (wr.write w (beBytes 8 m.ts.toNat ++ beBytes 2 m.attempts.toNat)).2.1,
-            (wr.write w (beBytes 8 m.ts.toNat ++ beBytes 2 m.attempts.toNat)).2.2) := by
-  have h1 : store (List.replicate 10 (0 : UInt8)) 0 (putBE 8 m.ts) =
-      putBE 8 m.ts ++ List.replicate 2 (0 : UInt8) := by
-    rw [store_zero, putBE_length]; rfl
-  have h2 : store (putBE 8 m.ts ++ List.replicate 2 (0 : UInt8)) 8 (putBE 2 m.attempts) =
-      putBE 8 m.ts ++ putBE 2 m.attempts :=
-    store_tail _ _ _ 8 (putBE_length 8 m.ts).symm (by simp [putBE_length])
-  have hb : ((wr.write w (putBE 8 m.ts ++ putBE 2 m.attempts)).2.2 != "") = true := by
-    simpa [putBE] using h
-  simp only [writeTo, h1, h2, hb, if_true]
-  simp [putBE]
+    (h : (wr.write w (header m)).2.2 ≠ "") :
+    writeTo m.id m.body m.ts m.attempts wr w =
+      .ret ((wr.write w (header m)).1, (wr.write w (header m)).2.1, (wr.write w (header m)).2.2) := by
+  simp [header, beBytes] at h
+  simp [writeTo, store, putBE, header, beBytes, List.replicate, h]
 
 /-! ### decodeMessage -/
 
@@ -93,14 +76,8 @@ theorem minValidMsgLength_eq : c_minValidMsgLength = 26 ∧ c_MsgIDLength = 16 :
 theorem sendFramedResponse_eq (w : Bytes) (f : Frame) :
     sendFramedResponse bufferWriter w f.ftype f.data =
       .ret (w ++ encodeFrame f, BitVec.ofNat 64 f.data.length + 8#64, "") := by
-  have h1 : store (List.replicate 4 (0 : UInt8)) 0 (putBE 4 (BitVec.ofNat 32 f.data.length + 4#32)) =
-      beBytes 4 (f.data.length + 4) := by
-    rw [store_all _ _ (by simp [putBE_length])]
-    exact putBE_len_add f.data.length 4
-  have h2 : store (beBytes 4 (f.data.length + 4)) 0 (putBE 4 f.ftype) = beBytes 4 f.ftype.toNat := by
-    rw [store_all _ _ (by simp [putBE_length, beBytes_length])]; rfl
-  simp only [sendFramedResponse, bufferWriter, h1, h2, bne_self_eq_false, Bool.false_eq_true, if_false]
-  simp [encodeFrame]
+  simp [sendFramedResponse, bufferWriter, store_fit, putBE_length, beBytes_length, putBE_len_add, encodeFrame]
+  try simp [putBE]
 
 /-- Error path, ANY writer: a failing first `Write` (the size) is returned as is. -/
 theorem sendFramedResponse_write_error {W : Type} (wr : Writer W) (w : W) (f : Frame)
@@ -109,12 +86,7 @@ theorem sendFramedResponse_write_error {W : Type} (wr : Writer W) (w : W) (f : F
       .ret ((wr.write w (beBytes 4 (f.data.length + 4))).1,
             (wr.write w (beBytes 4 (f.data.length + 4))).2.1,
             (wr.write w (beBytes 4 (f.data.length + 4))).2.2) := by
-  have h1 : store (List.replicate 4 (0 : UInt8)) 0 (putBE 4 (BitVec.ofNat 32 f.data.length + 4#32)) =
-      beBytes 4 (f.data.length + 4) := by
-    rw [store_all _ _ (by simp [putBE_length])]
-    exact putBE_len_add f.data.length 4
-  have hb : ((wr.write w (beBytes 4 (f.data.length + 4))).2.2 != "") = true := by simpa using h
-  simp only [sendFramedResponse, h1, hb, if_true]
+  simp [sendFramedResponse, store_fit, beBytes_length, putBE_len_add, h]
 
 /-- `SendResponse` (the unframed variant, nsqlookupd's protocol): 4-byte big-endian length + data
 = the model's length-prefixed record `lp`, count = len + 4. -/
@@ -160,9 +132,9 @@ theorem readLen_eq (s tmp : Bytes) (ht : tmp.length = 4) :
 /-- a writer that refuses everything -/
 def closedWriter : Writer Nat := ⟨fun k _ => (k + 1, 0#64, "closed")⟩
 
-example : writeTo bufferWriter [7] 1#64 2#16 (List.replicate 16 48) [5] =
+example : writeTo (List.replicate 16 48) [5] 1#64 2#16 bufferWriter [7] =
     .ret ([7, 0, 0, 0, 0, 0, 0, 0, 1, 0, 2] ++ List.replicate 16 48 ++ [5], 27#64, "") := by decide
-example : writeTo closedWriter 0 1#64 2#16 (List.replicate 16 48) [5] = .ret (1, 0#64, "closed") :=
+example : writeTo (List.replicate 16 48) [5] 1#64 2#16 closedWriter 0 = .ret (1, 0#64, "closed") :=
   writeTo_write_error closedWriter 0 ⟨1#64, 2#16, List.replicate 16 48, [5]⟩ (by decide)
 example : sendFramedResponse closedWriter 0 2#32 [5] = .ret (1, 0#64, "closed") :=
   sendFramedResponse_write_error closedWriter 0 ⟨2#32, [5]⟩ (by decide)
